@@ -1,0 +1,78 @@
+"""Verification hooks (schedule points).
+
+Inert unless the environment variable ``XONSH_XONSH_VERIF=1`` is set when this
+module is imported.  With the guard on, ``sched_point(name)`` may sleep for a
+short, *seeded* time so that test harnesses can perturb the interleaving of
+xonsh's helper threads in a replayable way:
+
+    XONSH_XONSH_VERIF_SCHED="<seed>:<probability>:<max_ms>"
+
+The decision for the k-th visit of point ``name`` is a pure function of
+``(seed, name, k)``.  A harness may also install its own callable with
+``set_hook(fn)``; it is then called as ``fn(name)`` instead.
+"""
+
+import os
+
+ENABLED = os.environ.get("XONSH_XONSH_VERIF") == "1"
+
+if not ENABLED:
+
+    def sched_point(name):
+        """No-op (guard off)."""
+        return None
+
+    def set_hook(fn):
+        """No-op (guard off)."""
+        return None
+
+else:
+    import hashlib
+    import threading
+    import time
+
+    _lock = threading.Lock()
+    _counts: dict = {}
+    _hook = None
+    _plan = None
+
+    def _load_plan():
+        global _plan
+        spec = os.environ.get("XONSH_XONSH_VERIF_SCHED", "")
+        try:
+            seed, prob, max_ms = spec.split(":")
+            _plan = (int(seed), float(prob), float(max_ms))
+        except ValueError:
+            _plan = None
+
+    def set_plan(seed, prob, max_ms):
+        """Install a delay plan and reset the visit counters."""
+        global _plan
+        with _lock:
+            _plan = (int(seed), float(prob), float(max_ms))
+            _counts.clear()
+
+    def set_hook(fn):
+        """Install (or with None remove) a callable invoked at every point."""
+        global _hook
+        _hook = fn
+
+    def sched_point(name):
+        hook = _hook
+        if hook is not None:
+            hook(name)
+            return
+        plan = _plan
+        if plan is None:
+            return
+        with _lock:
+            k = _counts.get(name, 0)
+            _counts[name] = k + 1
+        seed, prob, max_ms = plan
+        h = hashlib.blake2b(f"{seed}:{name}:{k}".encode(), digest_size=8).digest()
+        u = int.from_bytes(h[:4], "big") / 2**32
+        if u < prob:
+            frac = int.from_bytes(h[4:], "big") / 2**32
+            time.sleep(frac * max_ms / 1000.0)
+
+    _load_plan()
